@@ -71,6 +71,30 @@ D = {
  'C11-close-unwraps-poisoned-lock': ('C11', 'close() takes the ids mutex with unwrap(); add_signal returns early when closed', 'a caught panicking add_signal (forbidden signal) poisons the mutex; every later close() panics before the flag store'),
  'C10-recv-handback-early': ('C10', 'Channel::recv hands the slot back before take() (independent rediscovery, round 2)', '5 outstanding records and a delivery between the early enqueue and the take'),
  'C10-add-signal-check-then-act': ('C10', 'Handle::add_signal: check and record under separate lock acquisitions (independent rediscovery, round 2)', 'two add_signal(S) at once on one instance, info-carrying exfiltrator: two records per delivery'),
+ 'C13-close-retried-on-eintr': ('C13', 'Drop for WakeFd retries close() while it reports EINTR', 'close() interrupted (EINTR): on Linux the descriptor is already gone, the retry closes a number another thread may own'),
+ 'C13-errno-restored-then-read': ('C13', 'wake saves/restores errno and returns bool; WakeFd::wake retries while the (restored) errno is EINTR', 'a full write end and a stale EINTR in the interrupted code\'s errno: the handler spins forever'),
+ 'C02-unregister-signal-stale-copy': ('C02', 'unregister_signal reads and clones outside the writers\' mutex, then locks and stores', 'a register/unregister completing between the read-clone and the lock: it is overwritten, next_id rolled back'),
+ 'C02-seen-zero-before-swap': ('C02', 'write() probes the reader slots right after taking the mutex and the barrier starts from that result', 'a delivery taking its guard between write() and the swap is not waited for: freed snapshot, action runs after removal returned'),
+ 'C16-sigpwr-ignore': ('C16', 'DETAILS gains SIGSTKFLT (Term) and SIGPWR (Ignore)', 'signal 30: Linux terminates on SIGPWR, the emulation continues'),
+ 'C16-unblock-only-if-handled': ('C16', 'restore_default reports whether a handler was replaced; the Term branch unblocks only then', 'the signal blocked with disposition SIG_DFL / SIG_IGN at call time: the re-raise stays pending, abort()'),
+ 'C09-iterator-starts-exhausted': ('C09', 'SignalIterator::new builds an exhausted batch instead of calling pending()', 'two signals in one batch, one taken from forever(), the iterator dropped, a fresh forever(): blocks'),
+ 'C09-watched-end-raised-late': ('C09', 'Pending::next scans up to a high-water mark that add_signal raises only after register_sigaction returned', 'add_signal of a higher number from another thread and a delivery between publication and return'),
+ 'C12-no-cleanup-while-unwinding': ('C12', 'DeliveryState::drop returns early when thread::panicking()', 'Signals::new(&[SIGUSR1, SIGKILL]) under catch_unwind; an instance dropped by an unrelated panic'),
+ 'C12-sigrtmax-id-lost': ('C12', 'the id table is sized min(SIGRTMAX, MAX_SIGNUM); add_signal uses get/get_mut', 'add_signal(64): registered, its SigId silently dropped'),
+ 'C05-slot-inherits-flags': ('C05', 'Slot::new re-installs the library handler with the previous handler\'s flags and mask or-ed in', 'a one-shot (SA_RESETHAND) handler installed before the first registration'),
+ 'C05-per-slot-id-counter': ('C05', 'the id counter moves into Slot; unregister_signal rebuilds the slot', 'register, unregister_signal, register again: ids 1, 2, .. handed out again; a stale id removes a live action'),
+ 'C15-sys-exit-first': ('C15', 'low_level::exit issues SYS_exit before _exit (independent rediscovery)', 'more than one thread when the armed shutdown fires'),
+ 'C15-swap-remove-order': ('C15', 'Slot.actions becomes a Vec; unregister uses swap_remove', 'three actions on one signal, the first unregistered: the last one jumps in front (shutdown/flag order flips)'),
+ 'C14-drop-leaves-poisoned-list': ('C14', 'DeliveryState::drop unregisters only if the mutex is not poisoned', 'a successful registration, a panic-refused one on the same instance, then the drop'),
+ 'C14-raw-exfiltrator-unchecked': ('C14', 'SignalOnly::supports_signal checks FORBIDDEN; PendingSignals::add_signal calls register_unchecked', 'a forbidden signal with WithRawSiginfo / WithOrigin'),
+ 'C03-wakefd-restores-flags': ('C03', 'WakeFd restores the original file status flags on drop (independent rediscovery)', 'two registrations sharing one pipe description, the older removed, a full pipe'),
+ 'C03-send-nosignal-only': ('C03', 'register_raw sets O_NONBLOCK on sockets too; send uses MSG_NOSIGNAL instead of MSG_DONTWAIT', 'the std iterator (blocking socket pair that never went through register_raw) and ~278 unread deliveries'),
+ 'C17-siginfo-flag-lost': ('C17', 'Slot::new re-installs the handler with old.sa_flags | SA_RESTART', 'a previous plain SA_ONSTACK handler: SA_SIGINFO is lost, Origin is built from stale memory'),
+ 'C17-zero-sentinel': ('C17', 'extract.c returns pid/uid 0 unless the code carries a process; has_process removed, (0,0) means None everywhere', 'a sender the kernel describes as pid 0 uid 0'),
+ 'C01-add-signal-two-locks': ('C01', 'Handle::add_signal takes its lock twice with the registration in between (independent rediscovery)', 'two overlapping add_signal(S) on one instance'),
+ 'C01-reader-moves-and-barrier-skips': ('C01', 'read() moves once to the current slot after a generation change; the barrier waits for the old slot only', 'the generation switched twice inside one read(), then a third write'),
+ 'C10-enqueue-aba': ('C10', 'enqueue hoists the free-position search out of its CAS loop and redoes it only if the head index changed', 'two handlers of one signal overlapping and a full turn of the ring: ABA on the head index'),
+ 'C10-constructor-duplicates': ('C10', 'add_signal split into a checking wrapper and register_new; the constructor calls register_new directly', 'a signal listed twice in the constructor\'s set: two records per delivery'),
  'C18-unregister-read-then-write': ('C18', 'unregister looks the id up under a read guard that is still held while write() blocks', 'two mutators: one holds the mutex before its barrier\'s first check, the other\'s unregister has incremented a reader slot and blocks on the mutex'),
 }
 for name, (prop, change, needs) in D.items():
